@@ -2,7 +2,7 @@
 from core import ok, bad, unresolved, floor
 from anchors import AnchorError
 from facts import callee_of, op_local, last_seg, strip_generics
-from util import calls_to_fn
+from util import calls_to_fn, calls_named
 import commit, c09, c03
 
 
@@ -67,10 +67,61 @@ def atomic_begin(ctx, rule='C04.atomic-begin'):
     return res
 
 
+def map_covers_snapshot(ctx, rule='C04.map-covers-snapshot'):
+    """the map a reader works with covers every page of the header it chose.  Two independent arguments give that, and at least one must hold: (A) the
+    commit replaces the shared map only while it holds, exclusively, the lock every open reader holds shared -- no remap during a reader's life; or
+    (B) at begin the reader clones the map only after it has read the header -- its map is at least as new as its snapshot."""
+    res = []
+    F = ctx.facts
+    try:
+        hdr, rz = ctx.need('DBInner::meta', 'resize-role')
+    except AnchorError as e:
+        return [unresolved(rule, str(e))]
+    bf, wp = c03.registry_scope(ctx)
+    L = c09.locks_of(ctx)
+    lr = L.info(bf, {wp: False})
+    # locks the read-only begin path still holds, shared, when it returns
+    kept = {n for (n, m) in lr.held_on_return() if m == 'S'}
+    rzx = ctx.A.xf(rz)
+    lz = L.info(rzx)
+    slot = [bb for bb in sorted(rzx.reachable_blocks()) if any(n == 'data' and m == 'X' for (n, m) in lz.held_must_at(bb))]
+    f = floor(rule, 'blocks of the remap function that hold the shared map slot', len(slot), 1)
+    if f:
+        return [f]
+    a_locks = None
+    for bb in slot:
+        h = {n for (n, m) in lz.held_must_at(bb) if m == 'X' and n != 'data'}
+        a_locks = h if a_locks is None else (a_locks & h)
+    A = bool(a_locks & kept)
+    reach_hdr = {g for g in F.fns if hdr in F.reachable_fns([g])}
+    Rm = [bb for bb, t, target, c in F.call_sites(bf) if bb in lr.reach and target is not None and target in reach_hdr]
+    clones = [bb for bb, t, c in calls_named(F, bf, 'Clone::clone') if 'Arc<memmap2::Mmap>' in (c.get('self_ty') or '') and bb in lr.reach]
+    f = floor(rule, 'map clones on the reader begin path', len(clones), 1) or floor(rule, 'header reads on the reader begin path', len(Rm), 1)
+    if f:
+        return [f]
+    B = all(any(bf.dominates(h, cb) for h in Rm) for cb in clones)
+    ctx.stats['map_covers_snapshot'] = dict(reader_keeps_shared=sorted(kept), remap_holds_exclusive=sorted(a_locks), header_before_clone=B)
+    if A or B:
+        how = []
+        if A:
+            how.append('the remap in %s holds %s exclusively and every reader keeps it shared' % (rz.qual, sorted(a_locks & kept)))
+        if B:
+            how.append('begin clones the map (%s) only after the header read (%s)' % (', '.join(bf.loc(b) for b in clones), ', '.join(bf.loc(b) for b in Rm)))
+        res.append(ok(rule, '; '.join(how), sites=len(slot) + len(clones)))
+    else:
+        res.append(bad(rule, '%s | reader\'s map can be older than its header' % bf.qual,
+                       'nothing makes a reader\'s map cover its snapshot: the remap in %s holds %s exclusively while readers keep %s shared (no common lock), and begin clones the map at %s '
+                       'before it reads the header at %s. A commit that grows the file between the two steps gives the reader a header whose pages lie beyond its map'
+                       % (rz.qual, sorted(a_locks) or 'nothing', sorted(kept) or 'nothing', ', '.join(bf.loc(b) for b in clones), ', '.join(bf.loc(b) for b in Rm)),
+                       where=bf.loc(clones[0])))
+    return res
+
+
 def run(ctx, tier):
     ob = commit.obligations(ctx)
     results = []
     results += atomic_begin(ctx)
+    results += map_covers_snapshot(ctx)
     results += ob['O1'] + ob['O2'] + ob['O3'] + ob['O4']
     results += c09.writer_reads_after_lock(ctx, rule='C04.writer-snapshot')
     results += c03.sorted_registry(ctx, rule='C04.registry-discipline')
@@ -80,6 +131,8 @@ def run(ctx, tier):
     results += c10.release_per_entry(ctx, rule='C04.release-per-entry')
     import c02
     results += c02.alternate_rule(ctx, rule='C04.alternate')
+    results += c09.snapshot_source(ctx, rule='C04.snapshot-source')
+    results += c03.snapshot_fixed(ctx, rule='C04.snapshot-fixed')
     return dict(
         results=results, stats=dict(ctx.stats),
         explanation=(
